@@ -1609,8 +1609,26 @@ func c1Fallback(c *Ctx, rule string) {
 				}
 				// a function literal that calls a sub-encoder: so does the function that makes it, and the helper it is
 				// handed to runs it
+				var mks []*ssa.MakeClosure
+				var collect func(v ssa.Value, d int)
+				collect = func(v ssa.Value, d int) {
+					switch x := v.(type) {
+					case *ssa.MakeClosure:
+						mks = append(mks, x)
+					case *ssa.Phi:
+						// a variable that holds the literal on some path (nil on the others)
+						if d < 3 {
+							for _, e := range x.Edges {
+								collect(e, d+1)
+							}
+						}
+					}
+				}
 				for _, a := range cl.Common().Args {
-					if mk, isMk := a.(*ssa.MakeClosure); isMk {
+					collect(a, 0)
+				}
+				for _, mk := range mks {
+					{
 						if lf, isF := mk.Fn.(*ssa.Function); isF && hasOptional[lf] {
 							if !hasOptional[fn] {
 								hasOptional[fn], changed = true, true
@@ -1670,6 +1688,12 @@ func c1Fallback(c *Ctx, rule string) {
 					}
 					if fld, ok := optionalField(resolve(st, call.Call.Value)); ok && fld != "NewReflectedEncoder" {
 						return "sub:" + fld
+					}
+					// a function literal handed down as the built-in fall-back: it writes
+					if mk, isMk := resolve(st, call.Call.Value).(*ssa.MakeClosure); isMk {
+						if lf, isF := mk.Fn.(*ssa.Function); isF && writes[lf] && !hasOptional[lf] {
+							return "write"
+						}
 					}
 				}
 				if f := CalleeFunc(call); f != nil {
